@@ -21,6 +21,7 @@ import SqiProofs.C17.Cornacchia
 import SqiProofs.C17.Conv
 import SqiProofs.C17.Kernel
 import SqiProofs.C17.Kernel2
+import SqiProofs.C17.RepInt
 import SqiProofs.Primes
 
 namespace SqiProps.C17
@@ -392,6 +393,53 @@ theorem represent_integer_trial_sound (isPP : Int → Bool) (nGamma p z t : Int)
     linear_combination this
   · exact absurd h (by simp)
   · exact absurd h (by simp)
+
+/-- contract of `ibz_rand_interval`: for an EMPTY interval (b < a) the rejection loop never accepts — on every byte
+    stream the model consumes the whole stream and ends in the "randombytes failed" exit; with an inexhaustible
+    generator the C does not terminate.  (This is what makes `represent_integer*` spin for targets with 4n < p.) -/
+theorem rand_interval_empty_never_returns (a b : Int) (h : b < a) (stream : List Nat) :
+    ibzRandInterval a b stream = .fail := by
+  cases hr : ibzRandInterval a b stream with
+  | ok v => obtain ⟨r, rest⟩ := v; have := rand_interval_range_c a b stream r rest hr; omega
+  | fail => rfl
+  | ub => exact absurd hr (rand_interval_never_ub a b stream)
+
+/-- `represent_integer` / `represent_integer_non_diag` (whole function, integer level; model tied to the real functions
+    over a byte stream): every returned element γ = (c0 + c1·i + c2·j + c3·k)/2 lies in the standard maximal order
+    (c0 ≡ c3, c1 ≡ c2 mod 2), has reduced norm exactly the returned n_gamma, and n_gamma is the target divided by a
+    square — for every target n ≥ 0 (|4n| < 2^B, B ≤ 2^63), every p ≡ 3 (mod 4), every byte stream, every trial budget,
+    every primality oracle, both variants. -/
+theorem represent_integer_sound (isPP : Int → Bool) (nd : Bool) (trials : Nat) (n p : Int) (stream : List Nat)
+    (o : RIOut) (rest : List Nat) (hp : 0 < p) (hp4 : p % 4 = 3) (hn : 0 ≤ n)
+    (B : Nat) (hB1 : 1 ≤ B) (hB : B ≤ 2 ^ 63) (hsize : (n * 2 * 2).natAbs < 2 ^ B)
+    (h : representInteger isPP nd trials n p stream = .ok (o, rest)) :
+    ∃ c0 c1 c2 c3 k : Int, o.coord = [c0, c1, c2, c3] ∧ o.denom = 2 ∧
+      4 * o.nOut = c0 * c0 + c1 * c1 + p * (c2 * c2 + c3 * c3) ∧ n = o.nOut * (k * k) ∧
+      (c0 - c3) % 2 = 0 ∧ (c1 - c2) % 2 = 0 :=
+  representInteger_sound isPP nd trials n p stream o rest hp hp4 hn B hB1 hB hsize h
+example : representInteger probabPrime false 40 18 11 [0x69, 0xf0, 0xba, 0x9e, 0x0c, 0xcf] =
+    Res.ok (⟨18, [4, 1, 1, -2], 2⟩, []) ∧ (11 : Int) % 4 = 3 := by decide +kernel
+
+/-- CONTRACT of `represent_integer*` (undocumented in klpt.h): the target must satisfy 4·n_gamma ≥ p.  For 0 ≤ 4n < p the
+    first sampling interval [1, ⌊√(4n/p)⌋] = [1, 0] is empty, so no representation is ever returned: the model ends in the
+    "randomness exhausted" outcome on every stream (the real function spins inside `ibz_rand_interval`; observed with a
+    5 s alarm for n = 2^200 + 1 at level 1).  Every caller in the library passes n_gamma ≥ 2^15·p. -/
+theorem represent_integer_small_target_never_returns (isPP : Int → Bool) (nd : Bool) (trials : Nat) (n p : Int)
+    (stream : List Nat) (h0 : 0 ≤ n) (hlt : n * 2 * 2 < p) :
+    ∀ r, representInteger isPP nd trials n p stream ≠ .ok r := by
+  intro r h
+  unfold representInteger at h
+  simp only at h
+  have hq : (n * 2 * 2).tdiv p = 0 := Int.tdiv_eq_zero_of_lt (by omega) hlt
+  rw [hq] at h
+  have hb : ((isqrt (0 : Int).toNat : Nat) : Int) = 0 := by decide
+  rw [hb] at h
+  cases trials with
+  | zero => simp [riLoop] at h
+  | succ k =>
+    unfold riLoop at h
+    rw [rand_interval_empty_never_returns 1 0 (by omega) stream] at h
+    simp at h
 
 /-! ## 7. `ibz_get` and `two_adic_valuation(ibz_get(x))` -/
 
